@@ -42,6 +42,18 @@ SCRIPTS[("C01", "start_between_last_task_done_and_host_wakeup")] = ("same window
     (S.NEWROOT,), (S.GNEW, 1), (S.GENTER, 1, 1), (S.SPAWN, 1, 1), (S.RUNSTEP, 2), (S.NEWROOT,), (S.GEXIT, 1, 1), (S.HOLD, 2, 4), (S.FINISH, 2, 0),
     (S.RUNTASKDONE, 2), (S.START, 3, 1), (S.RUNWAKE, 1), (S.RUNSTEP, 4), (S.RUNDELIVER, 1), (S.RUNWAKE, 4), (S.FINISH, 4, 0), (S.RUNTASKDONE, 4),
     (S.RUNWAKE, 3), (S.RUNWAKE, 1)])
+SCRIPTS[("C05", "debt_relayed_through_uncancelled_middle_scope")] = ("outer > middle > inner on one task: inner is cancelled and delivered, then outer is cancelled before the task leaves inner; the uncancellation debt must be relayed through the never-cancelled middle scope", [
+    (S.NEWROOT,), (S.NEWSCOPE, 1, -1, 0), (S.ENTER, 1, 1), (S.NEWSCOPE, 1, -1, 0), (S.ENTER, 1, 2), (S.NEWSCOPE, 1, -1, 0), (S.ENTER, 1, 3),
+    (S.SLEEP, 1, -1), (S.EXTCANCEL, 3), (S.EXTCANCEL, 1), (S.RUNWAKE, 1), (S.EXIT, 1, 3, 0), (S.EXIT, 1, 2, 0), (S.EXIT, 1, 1, 0)])
+SCRIPTS[("C02", "f4_late_child_fails_after_empty_exit_checkpoint")] = ("a child started during the empty-group exit checkpoint fails: its error must surface from the block", [
+    (S.NEWROOT,), (S.GNEW, 1), (S.GENTER, 1, 1), (S.GEXIT, 1, 1), (S.NEWROOT,), (S.SPAWN, 2, 1), (S.RUNSTEP, 1),
+    (S.RUNSTEP, 3), (S.HOLD, 3, 6), (S.FINISH, 3, 0), (S.RUNTASKDONE, 3), (S.RUNWAKE, 1)])
+SCRIPTS[("C04", "native_cancel_in_empty_exit_checkpoint_replaces_anyio_cancellation")] = ("the body leaves an empty, cancelled group with the AnyIO cancellation in flight and the host is natively cancelled during the exit checkpoint: the native cancellation must come out", [
+    (S.NEWROOT,), (S.NEWSCOPE, 1, -1, 0), (S.ENTER, 1, 1), (S.GNEW, 1), (S.GENTER, 1, 1), (S.CANCEL, 1, 2), (S.SLEEP, 1, -1), (S.RUNDELIVER, 2),
+    (S.RUNWAKE, 1), (S.GEXIT, 1, 1), (S.NATIVECANCEL, 1), (S.RUNSTEP, 1), (S.EXIT, 1, 1, 0)])
+SCRIPTS[("C04", "shielded_fail_after_inside_cancelled_scope")] = ("a block opened with fail_after(shield=True) inside a cancelled scope is not interrupted", [
+    (S.NEWROOT,), (S.NEWSCOPE, 1, -1, 0), (S.ENTER, 1, 1), (S.FAILAT, 1, 9, 1), (S.CANCEL, 1, 1), (S.SLEEP, 1, 2), (S.TICK, 2),
+    (S.RUNSLEEPDONE, 1), (S.RUNWAKE, 1), (S.EXIT, 1, 2, 1), (S.YIELD, 1), (S.RUNDELIVER, 1), (S.RUNSTEP, 1)])
 SCRIPTS[("C07", "f2_started_child_error_after_starter_cancelled")] = SCRIPTS[("C02", "f2_started_child_error_after_starter_cancelled")]
 
 def main():
